@@ -40,7 +40,8 @@ def make_scratch(repo):
 
 def apply_entry(root, e):
     """Returns True if applied."""
-    edits = e.get("edits") or [{"file": e["file"], "old": e["old"], "new": e["new"]}]
+    edits = e.get("edits") or ([{"file": e["file"], "regex": e["regex"], "repl": e["repl"]}] if "regex" in e else
+                              [{"file": e["file"], "old": e["old"], "new": e["new"]}])
     texts = {}
     for ed in edits:
         p = os.path.join(root, ed["file"])
@@ -49,6 +50,14 @@ def apply_entry(root, e):
                 texts[p] = open(p).read()
             except OSError:
                 return False
+        if "regex" in ed:
+            # identifier rename (behaviour preserving): every whole-word occurrence in the file
+            import re
+            new_text, n = re.subn(ed["regex"], ed["repl"], texts[p])
+            if n == 0:
+                return False
+            texts[p] = new_text
+            continue
         if texts[p].count(ed["old"]) < 1:
             return False
         texts[p] = texts[p].replace(ed["old"], ed["new"], 1)
